@@ -36,6 +36,26 @@ Proof. intros Hb. rewrite N.mul_comm. apply N.mul_div_le. exact Hb. Qed.
 
 (* qarray_create_internal produces a well-formed layout for every input it accepts
    (the code asserts segment_size > 0; with asserts compiled out that is the caller's obligation). *)
+Lemma shrink_le fuel ss us sb : shrink fuel ss us sb <= ss.
+Proof.
+  revert ss. induction fuel as [|f IH]; intros ss; cbn [shrink]; [lia|].
+  destruct ((0 <? ss) && (sb <? slot_end ss us)); [|lia].
+  specialize (IH (ss - 1)). lia.
+Qed.
+
+Lemma shrink_fits fuel ss us sb :
+  (N.to_nat ss <= fuel)%nat ->
+  shrink fuel ss us sb = 0 \/ slot_end (shrink fuel ss us sb) us <= sb.
+Proof.
+  revert ss. induction fuel as [|f IH]; intros ss Hf; cbn [shrink].
+  - left. lia.
+  - destruct (0 <? ss) eqn:E0; cbn [andb].
+    + destruct (sb <? slot_end ss us) eqn:E1.
+      * apply IH. lia.
+      * right. lia.
+    + left. lia.
+Qed.
+
 Lemma create_layout_wf count obj d tight segpages pagesize nsheps oshep :
   0 < obj -> 0 < pagesize ->
   0 < d_segsize (create count obj d tight segpages pagesize nsheps oshep) ->
@@ -49,17 +69,60 @@ Proof.
   destruct (is_dist d).
   - set (sb0 := if segpages =? 0 then 16 * pagesize else segpages * pagesize).
     pose proof (div_mul_le' sb0 us Hus0) as Hdm.
-    destruct (sb0 - sb0 / us * us <? 4) eqn:E4; cbn [fst snd]; intros Hss; repeat split; try lia.
-    destruct (pagesize <? us) eqn:Eps.
-    + (* segment_bytes reduced by whole pages of the unit size *)
-      assert (Hfl : us / pagesize * pagesize <= us) by (apply div_mul_le'; lia).
-      assert ((sb0 / us - 1) * us + us = sb0 / us * us) by nia.
-      destruct (us mod pagesize =? 0); nia.
-    + nia.
+    destruct (sb0 - sb0 / us * us <? 4) eqn:E4; cbn [fst snd].
+    + set (sb1 := if pagesize <? us then _ else sb0).
+      pose proof (shrink_le (N.to_nat (sb0 / us - 1)) (sb0 / us - 1) us sb1) as Hsh.
+      set (ssf := shrink (N.to_nat (sb0 / us - 1)) (sb0 / us - 1) us sb1) in *.
+      intros Hss. repeat split; try lia.
+      assert (Hb : (sb0 / us - 1) * us <= sb1).
+      { unfold sb1. destruct (pagesize <? us) eqn:Eps.
+        - assert (Hfl : us / pagesize * pagesize <= us) by (apply div_mul_le'; lia).
+          assert ((sb0 / us - 1) * us + us = sb0 / us * us) by nia.
+          destruct (us mod pagesize =? 0); nia.
+        - nia. }
+      nia.
+    + pose proof (shrink_le (N.to_nat (sb0 / us)) (sb0 / us) us sb0) as Hsh.
+      set (ssf := shrink (N.to_nat (sb0 / us)) (sb0 / us) us sb0) in *.
+      intros Hss. repeat split; try lia. nia.
   - set (sb0 := if segpages =? 0
                  then (if 16 * pagesize <? us then N.lcm us pagesize else 16 * pagesize)
                  else segpages * pagesize).
     cbn [fst snd]. intros Hss. repeat split; try lia.
+Qed.
+
+(* DIST: the shepherd id stored behind the elements (4-byte aligned, 2 bytes) lies inside the segment, after the
+   last element, for every size combination the code accepts. *)
+Definition slot_fits (a : desc) : bool :=
+  (d_segsize a * d_unit a <=? shep_slot a) && (shep_slot a + 2 <=? d_segbytes a).
+
+Lemma dist_slot_fits count obj d tight segpages pagesize nsheps oshep :
+  is_dist d = true ->
+  let a := create count obj d tight segpages pagesize nsheps oshep in
+  0 < d_segsize a -> slot_fits a = true /\ (shep_slot a) mod 4 = 0.
+Proof.
+  intros Hd a Hss.
+  assert (Hslot : shep_slot a + 2 = slot_end (d_segsize a) (d_unit a)) by reflexivity.
+  assert (Hge : d_segsize a * d_unit a <= shep_slot a).
+  { unfold shep_slot. destruct (N.land (d_segsize a * d_unit a) 3 =? 0); lia. }
+  assert (Hfit : slot_end (d_segsize a) (d_unit a) <= d_segbytes a).
+  { unfold a, create in *. cbn [d_unit d_segsize d_segbytes] in *. unfold layout in *. rewrite Hd in *.
+    set (us := unit_size_of obj tight) in *.
+    set (sb0 := if segpages =? 0 then 16 * pagesize else segpages * pagesize) in *.
+    destruct (sb0 - sb0 / us * us <? 4); cbn [fst snd] in *.
+    - match goal with |- slot_end (shrink ?f ?s ?u ?b) _ <= _ =>
+        destruct (shrink_fits f s u b) as [Hz|Hok]; [lia | rewrite Hz in Hss; lia | exact Hok] end.
+    - match goal with |- slot_end (shrink ?f ?s ?u ?b) _ <= _ =>
+        destruct (shrink_fits f s u b) as [Hz|Hok]; [lia | rewrite Hz in Hss; lia | exact Hok] end. }
+  split.
+  - unfold slot_fits. apply andb_true_intro. split; [apply N.leb_le; exact Hge | apply N.leb_le; lia].
+  - unfold shep_slot. set (p := d_segsize a * d_unit a).
+    change 3 with (N.ones 2). rewrite N.land_ones. change (2 ^ 2) with 4.
+    assert (H4 : p mod 4 < 4) by (apply N.mod_lt; discriminate).
+    pose proof (N.div_mod p 4) as Hdm.
+    destruct (p mod 4 =? 0) eqn:E; [apply N.eqb_eq in E; exact E|].
+    apply N.eqb_neq in E.
+    replace (p + (4 - p mod 4)) with ((p / 4 + 1) * 4) by lia.
+    apply N.mod_mul. discriminate.
 Qed.
 
 (* ------------------------------------------------------------------ *)
@@ -290,12 +353,9 @@ Example fields_midregion_regression :
   iter_exact_b 2 (fun _ => 0) fields2 100 2048 (iter 2 (fun _ => 0) fields2 100 2048) 2049 = true.
 Proof. vm_compute. reflexivity. Qed.
 
-(* The DIST shepherd-id slot: fits for ordinary sizes, but not for every size combination. *)
-Definition slot_fits (a : desc) : bool :=
-  (d_segsize a * d_unit a <=? shep_slot a) && (shep_slot a + 2 <=? d_segbytes a).
-
-Lemma shep_slot_refuted :
-  exists count obj segpages pagesize,
-    let a := create count obj dDIST true segpages pagesize 2 0 in
-    0 < d_segsize a /\ slot_fits a = false.
-Proof. exists 10, 4097, 4097, 4096. vm_compute. split; reflexivity. Qed.
+(* Regression: the size combinations on which the id slot used to overflow the segment (unit sizes below 4; a
+   trimmed large segment) now fit. *)
+Example shep_slot_regression :
+  slot_fits (create 23232 1 dDIST_LEAST true 5 4096 1 0) = true /\
+  slot_fits (create 10 4097 dDIST true 4097 4096 2 0) = true.
+Proof. vm_compute. split; reflexivity. Qed.
